@@ -43,8 +43,21 @@ var (
 	dbCounter   atomic.Int64
 )
 
+// removeStaleScratch deletes scratch directories of c02 processes that died at
+// the go-test deadline (no test process lives longer than the job timeouts of
+// check.json, which are far below one hour).
+func removeStaleScratch() {
+	dirs, _ := filepath.Glob("/dev/shm/c02-*")
+	for _, d := range dirs {
+		if fi, err := os.Stat(d); err == nil && fi.IsDir() && time.Since(fi.ModTime()) > time.Hour {
+			_ = os.RemoveAll(d)
+		}
+	}
+}
+
 func TestMain(m *testing.M) {
 	var err error
+	removeStaleScratch()
 	scratchRoot, err = os.MkdirTemp("/dev/shm", "c02-")
 	if err != nil {
 		fmt.Fprintln(os.Stderr, "c02: cannot create scratch dir:", err)
